@@ -225,3 +225,23 @@ def run_case(ctx, desc):
                     ctx.violation("cumint-last-is-integrate", f"last value of cumint {shifts} != integrate")
         except Exception as e:
             ctx.violation("cumint-is-cumsum-of-weighted", f"raised {type(e).__name__}: {str(e)[:300]}")
+    # (6) the cell metric of one axis is replaced (set_metrics with overwrite) after the Grid has already integrated with the
+    # old one: cumint follows the metric registered *now*, also where it is a product of per-axis metrics
+    if not weighted and desc["data"]["seed"] % 3 == 0:
+        a = opax[desc["data"]["seed"] % len(opax)]
+        old = f"m_{cm[a][desc['pos'][a]]}"
+        new = old + "_new"
+        ds[new] = (ds[old].dims, ds[old].values * 2 + 0.25)
+        ctx.judged(("cumint-after-overwrite", len(opax)), True)
+        try:
+            g.set_metrics((a,), new, overwrite=True)
+            ci2 = g.cumint(da, call["axis"], **{k: v for k, v in kw.items()})
+            w2 = da
+            for b in opax:
+                w2 = w2 * ds[new if b == a else f"m_{cm[b][desc['pos'][b]]}"]
+            expci2, _ = model_cumsum(desc, w2.transpose(*da.dims).values, da.dims, opax, to_eff, ds)
+            if set(ci2.dims) != set(exp_dims) or not np.array_equal(ci2.transpose(*exp_dims).values, expci2):
+                ctx.violation("cumint-is-cumsum-of-weighted", f"after set_metrics(({a!r},), {new!r}, overwrite=True): cumint {shifts} over {opax} differs from cumsum(data * metric) with the "
+                                                              f"metric registered now")
+        except Exception as e:
+            ctx.violation("cumint-is-cumsum-of-weighted", f"cumint after a metric was replaced raised {type(e).__name__}: {str(e)[:250]}")
